@@ -229,8 +229,14 @@ ClassPlan(cr, cl, id) ==
             \o [i \in 1..Len(c.statics) |-> [kind |-> "static", i |-> i]] \o [i \in 1..Len(c.props) |-> [kind |-> "prop", i |-> i]]
             \o [i \in 1..Len(c.ops) |-> [kind |-> "op", i |-> i]]
             \* a method of the base class called on an object of the derived class runs the base's entity
+            \* (unless the derived class declares a member of that name itself: it hides the base's overloads)
             \o (IF c.hasbase /\ Find(cl, c.base) # 0
-                THEN [i \in 1..Len(cl[Find(cl, c.base)].c.methods) |-> [kind |-> "inherited", i |-> i]] ELSE <<>>)
+                THEN LET bm == cl[Find(cl, c.base)].c.methods
+                         own == {c.methods[j].name : j \in 1..Len(c.methods)} \cup {c.statics[j].name : j \in 1..Len(c.statics)}
+                                \cup {c.props[j].name : j \in 1..Len(c.props)}
+                         vis == SelectSeq([i \in 1..Len(bm) |-> i], LAMBDA i : bm[i].name \notin own)
+                     IN [k \in 1..Len(vis) |-> [kind |-> "inherited", i |-> vis[k]]]
+                ELSE <<>>)
       enums == FlatSeq([i \in 1..Len(c.enums) |->
                   [j \in 1..Len(c.enums[i].enumerators) |->
                      CallStep("enum", cr.path \o <<c.enums[i].name>>, c.enums[i].enumerators[j], "", "", <<>>, NoKw, <<>>, "val:" \o ToString(j - 1), "")]])
